@@ -4,7 +4,7 @@ R-DYAD-PURE, R-DYAD-OWN (C15)."""
 from __future__ import annotations
 
 import ast
-from typing import List, Set
+from typing import Dict, List, Set
 
 from .. import tables as T
 from ..flow import (Alias, o_sens, o_state, o_sig, o_attr, o_param, root_of, fmt_origin, matches, SELF, Val)
@@ -169,6 +169,63 @@ def r_eff_resp(ctx: RuleCtx, col: Collector):
     dedupe(col)
 
 
+def _keyed_memos(ctx: RuleCtx, c) -> Dict[str, str]:
+    """Attributes that hold a *keyed memo*: a self-only method g computes `key` from attributes of self, returns the stored
+    value when `self.K == key`, and otherwise stores the new value together with `self.K = key`.  The stored value is a
+    function of the configuration g reads (g has no other inputs and reads nothing the response / sensitivity closures
+    assign), and a changed configuration changes the key: assigning it from `_sensitivity` leaves the module as a second
+    call would find it anyway."""
+    m = ctx.model
+    out: Dict[str, str] = {}
+    closure_written: Set[str] = set()
+    for k in m.mro(c):
+        for name, defs in k.methods.items():
+            if name in ("__init__", "_prepare"):
+                continue
+            for f in defs:
+                sn = m.self_name(f)
+                for n in ast.walk(f.node):
+                    if isinstance(n, ast.Attribute) and isinstance(n.ctx, ast.Store) and isinstance(n.value, ast.Name) and n.value.id == sn:
+                        closure_written.add(n.attr)
+    for k in m.mro(c):
+        for name, defs in k.methods.items():
+            for g in defs:
+                if len(g.pos_params()) != 0 or g.node.args.vararg or g.node.args.kwarg or g.node.args.kwonlyargs:
+                    continue
+                sn = m.self_name(g)
+                if not sn:
+                    continue
+                # if self.K == key (possibly and-ed with other tests): return self.A
+                for t in [x for x in ast.walk(g.node) if isinstance(x, ast.If)]:
+                    cmp_ = [y for y in ast.walk(t.test) if isinstance(y, ast.Compare) and len(y.ops) == 1 and isinstance(y.ops[0], ast.Eq)]
+                    rets = [y for y in t.body if isinstance(y, ast.Return) and isinstance(y.value, ast.Attribute)
+                            and isinstance(y.value.value, ast.Name) and y.value.value.id == sn]
+                    if not cmp_ or not rets:
+                        continue
+                    for cp in cmp_:
+                        sides = [cp.left, cp.comparators[0]]
+                        ka = [x for x in sides if isinstance(x, ast.Attribute) and isinstance(x.value, ast.Name) and x.value.id == sn]
+                        kl = [x for x in sides if isinstance(x, ast.Name)]
+                        if len(ka) != 1 or len(kl) != 1:
+                            continue
+                        K, key, A = ka[0].attr, kl[0].id, rets[0].value.attr
+                        stores = {n.targets[0].attr: n.value for n in ast.walk(g.node) if isinstance(n, ast.Assign) and len(n.targets) == 1
+                                  and isinstance(n.targets[0], ast.Attribute) and isinstance(n.targets[0].value, ast.Name)
+                                  and n.targets[0].value.id == sn}
+                        if set(stores) != {K, A} or not (isinstance(stores[K], ast.Name) and stores[K].id == key):
+                            continue
+                        reads = {n.attr for n in ast.walk(g.node) if isinstance(n, ast.Attribute) and isinstance(n.ctx, ast.Load)
+                                 and isinstance(n.value, ast.Name) and n.value.id == sn}
+                        own_methods = {nm for kk in m.mro(c) for nm in kk.methods}
+                        if (reads - {K, A} - own_methods) & (closure_written - {K, A}):
+                            continue        # reads something the closures produce: not a function of the configuration
+                        why = f"keyed memo of {g.short}: returned while self.{K} == {key}, rebuilt and re-keyed otherwise; {g.short} " \
+                              f"has no inputs besides configuration attributes"
+                        out[A] = why
+                        out[K] = why
+    return out
+
+
 @rule("R-EFF-SELF", floor=20, witness_min=1)
 def r_eff_self(ctx: RuleCtx, col: Collector):
     """A `_sensitivity` closure writes no attribute of `self` and mutates no object held in one (so a second call
@@ -178,7 +235,11 @@ def r_eff_self(ctx: RuleCtx, col: Collector):
         an = ctx.alias(f, c)
         bad = False
         cache_names = {a for (k, a) in T.SELF_CACHE if any(x.name == k for x in m.mro(c))}
+        memos = _keyed_memos(ctx, c)
         for st in an.attr_stores:
+            if st.attr in memos:
+                col.benign(where_of(f), f.rel, line_of(st.stmt), f"self.{st.attr} (keyed memo)", memos[st.attr])
+                continue
             if st.attr in cache_names:
                 col.benign(where_of(f), f.rel, line_of(st.stmt), f"self.{st.attr} (self-cache)",
                            "tabled self-cache: " + [v for (k, a), v in T.SELF_CACHE.items() if a == st.attr][0])
